@@ -907,6 +907,29 @@ impl Chain {
         Ok(self.recs.len() - 1)
     }
 
+    /// a fork at the next height: a sibling S (never part of this chain object) is built on the tip and
+    /// reaches the node FIRST, then the block W that this chain continues with is built on the same
+    /// parent and stored as a non-longest fork. The next `extend` builds on W and makes the node
+    /// reorganise away S. Returns the index of W.
+    pub fn extend_with_sibling_first(&mut self, txs_s: Vec<Transaction>, txs_w: Vec<Transaction>, gt: bool, dt: u64) -> Result<usize, String> {
+        let parent = self.tip_rec().hash;
+        let ts = self.tip_rec().ts + dt;
+        let s = build_block(&self.node, &self.keys, BlockSpec { parent, ts: ts + 7, txs: txs_s, gt, creator: 0 })?;
+        match outcome_of(&self.node.add_block(s)) {
+            AddOutcome::Added { longest: true } => {}
+            other => return Err(format!("REFUSED[sibling] {:?}", other)),
+        }
+        let b = build_block(&self.node, &self.keys, BlockSpec { parent, ts, txs: txs_w, gt, creator: 0 })?;
+        let rec = rec_from_block(&b, true, "chain-after-sibling");
+        match outcome_of(&self.node.add_block(b)) {
+            AddOutcome::Added { longest: false } => {}
+            other => return Err(format!("REFUSED[fork-block] {:?}", other)),
+        }
+        self.ledger.apply(&rec);
+        self.recs.push(rec);
+        Ok(self.recs.len() - 1)
+    }
+
     /// build on the own tip with the real Block::create and add it to the own node
     pub fn extend(&mut self, txs: Vec<Transaction>, gt: bool, dt: u64) -> Result<usize, String> {
         let ts = self.tip_rec().ts + dt;
